@@ -515,7 +515,14 @@ def thin_wrappers(chk, fb, RID):
             r = q.result
             if isinstance(r, Variant) and r.variant == "Err":
                 continue
-            s = rel.cstr(r)
+            def okform(v, depth=0):
+                # `x?` and `x.and_then(|v| ..)` both continue with the success value of x
+                if isinstance(v, App) and depth < 40:
+                    if v.fn == ".0" and len(v.args) == 1 and isinstance(v.args[0], App) and v.args[0].fn == "as:Ok" and len(v.args[0].args) == 1:
+                        return App("ok", [okform(v.args[0].args[0], depth + 1)])
+                    return App(v.fn, [okform(a, depth + 1) for a in v.args])
+                return v
+            s = rel.cstr(okform(rel.canon(r)))
             if re.match(rx, s):
                 oks += 1
             else:
